@@ -30,7 +30,7 @@
    (serialize_deserialize_C of DESIGN.md): covered end to end by the searcher
    only; the three meta entries save() adds; class de-serialisation. *)
 From Coq Require Import ZArith List Bool Ascii String.
-From V Require Import Model.Codec Proofs.Codec.
+From V Require Import Model.Codec Proofs.Codec Gen.C17Keys.
 Import ListNotations.
 Local Open Scope string_scope.
 
@@ -127,6 +127,15 @@ Theorem key_guard_syntactic_bounded :
   forallb (fun k => Bool.eqb (key_all_okb k) (simple_keyb k)) (words key_alpha 4 ++ twords 3) = true.
 Proof. vm_compute. reflexivity. Qed.
 Print Assumptions key_guard_syntactic_bounded.
+
+(* Gen/C17Keys.v is rewritten on every run from the to_dict methods of the
+   registered classes: every key they emit (attribute names, auto-generated
+   source/receiver/frequency names, data-set names) satisfies the key guard of
+   all three formats. *)
+Theorem emg3d_keys_carried :
+  forallb key_all_okb emg3d_keys = true /\ (60 <=? List.length emg3d_keys)%nat = true.
+Proof. split; vm_compute; reflexivity. Qed.
+Print Assumptions emg3d_keys_carried.
 
 Example json_underscore_key_rejected :
   jdec (jenc (VDict [("x_", VArr DF64 [1]%nat [NF (FFin 1 1)])])) = None /\
